@@ -105,3 +105,27 @@ fn security_monotone_bounded() {
     sweep::<f128::BaseElement>("f128", &all[..2], &mut cases);
     println!("NB-RESULT name=security_monotone_bounded cases={cases}");
 }
+
+// The collision-resistance figure every estimate is capped by: for each hasher it is half the entropy of its digest in bits
+// (the birthday bound) - 32-byte digests: 128, the 24-byte Blake3_192 digest: 96, four field elements of a Rescue digest:
+// 4 * (bits of the modulus) / 2, i.e. 128 over the 64-bit field and 124 over the 62-bit field.
+#[test]
+fn collision_resistance_constants_bounded() {
+    use crypto::hashers::{Rp62_248, Rp64_256, RpJive64_256, Sha3_256};
+    let mut cases = 0u64;
+    let mut check = |name: &str, got: u32, want: u32| {
+        cases += 1;
+        if got != want {
+            fail(format!("{name}::COLLISION_RESISTANCE is {got}, the birthday bound of its digest is {want}"));
+        }
+    };
+    check("Blake3_256", <Blake3_256<f64::BaseElement> as Hasher>::COLLISION_RESISTANCE, 32 * 8 / 2);
+    check("Blake3_256 (f128)", <Blake3_256<f128::BaseElement> as Hasher>::COLLISION_RESISTANCE, 32 * 8 / 2);
+    check("Blake3_192", <Blake3_192<f64::BaseElement> as Hasher>::COLLISION_RESISTANCE, 24 * 8 / 2);
+    check("Blake3_192 (f62)", <Blake3_192<f62::BaseElement> as Hasher>::COLLISION_RESISTANCE, 24 * 8 / 2);
+    check("Sha3_256", <Sha3_256<f64::BaseElement> as Hasher>::COLLISION_RESISTANCE, 32 * 8 / 2);
+    check("Rp64_256", <Rp64_256 as Hasher>::COLLISION_RESISTANCE, 4 * <f64::BaseElement as StarkField>::MODULUS_BITS / 2);
+    check("RpJive64_256", <RpJive64_256 as Hasher>::COLLISION_RESISTANCE, 4 * <f64::BaseElement as StarkField>::MODULUS_BITS / 2);
+    check("Rp62_248", <Rp62_248 as Hasher>::COLLISION_RESISTANCE, 4 * <f62::BaseElement as StarkField>::MODULUS_BITS / 2);
+    println!("NB-RESULT name=collision_resistance_constants_bounded cases={cases}");
+}
